@@ -18,6 +18,9 @@ const (
 
 func calculateLines(lines []*Line, cur currency.Code, rates []*currency.ExchangeRate, rr cbc.Key) error {
 	for i, l := range lines {
+		if l == nil {
+			continue
+		}
 		l.Index = i + 1
 		if err := calculateLine(l, cur, rates, rr); err != nil {
 			return validation.Errors{strconv.Itoa(i): err}
@@ -29,6 +32,9 @@ func calculateLines(lines []*Line, cur currency.Code, rates []*currency.Exchange
 func calculateLineSum(lines []*Line, cur currency.Code) num.Amount {
 	sum := cur.Def().Zero()
 	for _, l := range lines {
+		if l == nil {
+			continue
+		}
 		if l.Total != nil {
 			sum = sum.MatchPrecision(*l.Total)
 			sum = sum.Add(*l.Total)
@@ -48,6 +54,9 @@ func calculateLine(l *Line, cur currency.Code, rates []*currency.ExchangeRate, r
 		// Calculate the substituted line items, which have no consequence on the
 		// final calculations, but still need some kind of normalization.
 		for i, sl := range l.Substituted {
+			if sl == nil {
+				continue
+			}
 			sl.Index = i + 1
 			if err := calculateSubLine(sl, cur, rates, rr); err != nil {
 				return validation.Errors{
@@ -63,6 +72,9 @@ func calculateLine(l *Line, cur currency.Code, rates []*currency.ExchangeRate, r
 		np := zero
 		hasPrice := false
 		for i, sl := range l.Breakdown {
+			if sl == nil {
+				continue
+			}
 			sl.Index = i + 1
 			if err := calculateSubLine(sl, cur, rates, rr); err != nil {
 				return validation.Errors{
@@ -161,6 +173,9 @@ func calculateSubLine(sl *SubLine, cur currency.Code, rates []*currency.Exchange
 func calculateLineDiscounts(discounts []*LineDiscount, sum, total num.Amount, cur currency.Code, rr cbc.Key) num.Amount {
 	cd := cur.Def()
 	for _, d := range discounts {
+		if d == nil {
+			continue
+		}
 		if d.Percent != nil && !d.Percent.IsZero() {
 			base := sum
 			if d.Base != nil {
@@ -180,6 +195,9 @@ func calculateLineDiscounts(discounts []*LineDiscount, sum, total num.Amount, cu
 func calculateLineCharges(charges []*LineCharge, quantity, sum, total num.Amount, cur currency.Code, rr cbc.Key) num.Amount {
 	cd := cur.Def()
 	for _, c := range charges {
+		if c == nil {
+			continue
+		}
 		if c.Percent != nil && !c.Percent.IsZero() {
 			base := sum
 			if c.Base != nil {
@@ -231,6 +249,9 @@ func calculateLineItemPrice(item *org.Item, cur currency.Code, rates []*currency
 
 	// First check the alt prices
 	for _, ap := range item.AltPrices {
+		if ap == nil {
+			continue
+		}
 		if ap.Currency == cur {
 			item.Currency = ap.Currency
 			price = ap.Value.MatchPrecision(ap.Currency.Def().Zero())
@@ -256,6 +277,9 @@ func calculateLineItemPrice(item *org.Item, cur currency.Code, rates []*currency
 func determineSubLinePrecision(sls []*SubLine) uint32 {
 	e := uint32(0)
 	for _, sl := range sls {
+		if sl == nil {
+			continue
+		}
 		if sl.Item == nil || sl.Item.Price == nil {
 			continue
 		}
@@ -270,6 +294,9 @@ func determineSubLinePrecision(sls []*SubLine) uint32 {
 // roundLines is a convenience function to round all the lines in a document.
 func roundLines(lines []*Line) {
 	for _, l := range lines {
+		if l == nil {
+			continue
+		}
 		l.round()
 	}
 }
@@ -295,15 +322,27 @@ func (l *Line) round() {
 	}
 
 	for _, d := range l.Discounts {
+		if d == nil {
+			continue
+		}
 		d.round(e)
 	}
 	for _, c := range l.Charges {
+		if c == nil {
+			continue
+		}
 		c.round(e)
 	}
 	for _, sl := range l.Breakdown {
+		if sl == nil {
+			continue
+		}
 		sl.round(e)
 	}
 	for _, sl := range l.Substituted {
+		if sl == nil {
+			continue
+		}
 		sl.round(e)
 	}
 }
